@@ -1571,6 +1571,35 @@ def wrappers(ctx, rel_names):
 
 # ---------------- refusal inventory: the set of ways a function can return Err ----------------
 
+def carried_error(prog, T):
+    """the error value of a Result built as `cond.then_some(E).map_or(Ok(()), Err)` / `cond.then(|| E).map_or(Ok(()), Err)`
+    (Err(E) exactly when cond holds): the term E, else None"""
+    from .guards import map_or_source
+    mo = map_or_source(T)
+    if mo is None or mo[1]:
+        return None
+    opt = mo[0]
+    if is_call(opt, name="then_some") and "bool" in opt[1] and len(opt[2]) == 2:
+        return opt[2][1]
+    if is_call(opt, name="then") and "bool" in opt[1] and len(opt[2]) == 2:
+        return apply_callable(prog, opt[2][1], [])
+    return None
+
+
+def err_values(prog, f, v):
+    """the error values f can return that are built in f itself: `Err(E)` writes and Results carrying their error as a value"""
+    out = []
+    for (b, k, rv) in ret_writes(f):
+        if k == "err":
+            out.append(v.cx.operand(rv["ops"][0]))
+        elif k in ("call", "other"):
+            T = v.cx.call(rv, v.cx.site(b)) if k == "call" else v.cx.rvalue(rv, (f.key, b, 0))
+            e = carried_error(prog, T) if T is not None else None
+            if e is not None:
+                out.append(e)
+    return out
+
+
 def err_inventory(prog, fn, table_keys=(), depth=0):
     """the ways fn can return Err, normalised so that equivalent spellings agree:
        'V:<Variant>'  an explicit refusal (`return Err(E::V)`, `x.ok_or(E::V)?`, `None => Err(E::V)`), multiset;
@@ -1644,9 +1673,12 @@ def err_inventory(prog, fn, table_keys=(), depth=0):
         elif k == "residual":
             t = v.cx.call(w, (fn.key, b))
             src = source_call(t)
+            ce = carried_error(prog, t[1] if t[0] in ("residual", "try") else t) or carried_error(prog, src)
             if isinstance(src, tuple) and src and src[0] == "ok_or":
                 e = src[2]
                 add("V:" + (str(e[3]) if e[0] == "agg" else "?"))
+            elif ce is not None:
+                add("V:" + (str(ce[3]) if ce[0] == "agg" else "?"))
             elif from_callee(src):
                 pass
             elif isinstance(src, tuple) and src and src[0] == "call" and not (src[1].lstrip("<").startswith("frost") or " as frost" in src[1]) and \
@@ -1664,9 +1696,140 @@ def err_inventory(prog, fn, table_keys=(), depth=0):
             # a fallible workspace callee in tail position (`helper(..)` returned as it is): its failures are this function's
             t = v.cx.call(w, (fn.key, b))
             src = source_call(t)
-            if isinstance(src, tuple) and src and src[0] == "call" and (src[1].lstrip("<").startswith("frost") or " as frost" in src[1]):
+            ce = carried_error(prog, t)
+            if ce is not None:
+                add("V:" + (str(ce[3]) if ce[0] == "agg" else "?"))
+            elif isinstance(src, tuple) and src and src[0] == "call" and (src[1].lstrip("<").startswith("frost") or " as frost" in src[1]):
                 from_callee(src)
     return inv
+
+
+def _closure_atoms(prog, clo, depth=0):
+    """atomic conditions a per-element predicate closure decides with: its branch conditions and the conditions it returns"""
+    from .guards import norm_cond, peel_result
+    cf = prog.fns.get(clo[1]) if isinstance(clo, tuple) and clo and clo[0] == "closure" else None
+    if cf is None or not cf.has_body:
+        return {("closure", clo[1] if isinstance(clo, tuple) and len(clo) > 1 else "?")}
+    sub = {1: ("agg", "tuple", None, None, tuple((str(n), val) for n, val in enumerate(clo[2]))), 2: ITEM}
+    cv = FnView(prog, cf, sub, (("clo", clo[1]),))
+    out = set()
+    seen_edges = set()
+    for (e, fa) in cv.own_facts:
+        if e in seen_edges:
+            continue
+        if fa[0] == "cond" and fa[1] != "other":
+            seen_edges.add(e)
+            out.add(("cond", fa[1], fa[2], fa[3]))
+        elif fa[0] == "cond":
+            core, _pos = pred_core(fa[2]) if isinstance(fa[2], tuple) and fa[2] else (fa[2], True)
+            if not (isinstance(core, tuple) and core and core[0] == "phi"):
+                seen_edges.add(e)
+                out.add(("cond", "other", core, None))
+        elif fa[0] == "succ" and not is_call(fa[1], name="next"):
+            seen_edges.add(e)
+            out.add(("succ", peel_result(fa[1])))
+    for (b, k, rv) in ret_writes(cf):
+        T = cv.cx.call(rv, cv.cx.site(b)) if k == "call" else cv.cx.rvalue(rv, (cf.key, b, 0)) if k == "other" else None
+        if T is None or T[0] == "const" or T[0] == "phi":
+            continue
+        kind, a, b_, _pos = norm_cond(T)
+        out.add(("cond", kind, a, b_) if kind != "other" else ("cond", "other", a, None))
+    return out or {("closure", clo[1])}
+
+
+def err_atoms(prog, fn, table_keys=(), depth=0):
+    """{'V:<Variant>': set of atomic refusal conditions}: for every explicit refusal site of fn (as counted by err_inventory), the
+    facts on the edges through which control enters the error-only region holding the site — `a || b` refused in one place and
+    `a`, `b` refused in two places give the same two atoms; a predicate closure (`all` / `any` / `find`) contributes the conditions
+    it decides with.  Only the *number* of distinct atoms per variant is compared with the reviewed number."""
+    from .guards import peel_result
+    class _V:
+        pass
+    v = _V()
+    v.cx = TermCx(prog, fn, inline=False)
+    v.facts = branch_facts(prog, fn, v.cx)
+    first_fact = {}
+    for (e, fa) in v.facts:
+        first_fact.setdefault(e, fa)
+    writes = {b for (b, _k, _w) in ret_writes(fn)}
+    out = {}
+
+    def atoms_of(site):
+        # the region from which this site's write is the only possible outcome, and the edges entering it
+        err_only = {q for q in fn.normal_blocks() if (fn.reach(q) & writes) == {site}}
+        back = {site}
+        todo = [site]
+        while todo:
+            q = todo.pop()
+            for (p, _lab) in fn.preds().get(q, ()):
+                if p in err_only and p not in back:
+                    back.add(p)
+                    todo.append(p)
+        res = set()
+        for q in back:
+            for (p, lab) in fn.preds().get(q, ()):
+                if p in err_only:
+                    continue
+                fa = first_fact.get((p, q, lab))
+                if fa is None:
+                    res.add(("edge", p, q))
+                elif fa[0] == "cond" and fa[1] in ("all", "any") and fa[3] is not None and fa[3][0] == "closure":
+                    res |= _closure_atoms(prog, fa[3])
+                elif fa[0] == "cond":
+                    res.add(("cond", fa[1], fa[2], fa[3], fa[4]))
+                elif fa[0] == "succ":
+                    X = peel_result(fa[1])
+                    clos = [a for a in (X[2] if is_call(X) else ()) if isinstance(a, tuple) and a and a[0] == "closure"]
+                    if is_call(X) and X[1].rsplit("::", 1)[-1] in ("find", "position", "find_map") and clos:
+                        res |= _closure_atoms(prog, clos[0])
+                    else:
+                        res.add(("succ", X, fa[2]))
+                else:
+                    res.add(fa)
+        return res
+
+    def add(k, atoms):
+        out.setdefault(k, set()).update(atoms)
+
+    def source_call(t):
+        while isinstance(t, tuple) and t and t[0] in ("map_err", "errval", "residual", "ok", "try"):
+            t = t[1]
+        return t
+
+    def helper_of(src):
+        if isinstance(src, tuple) and src and src[0] == "call":
+            H = prog.fns.get(src[1])
+            if H is not None and H.has_body and H.crate.startswith("frost") and src[1] not in table_keys and \
+                    H.j.get("vis", "") != "Public" and depth < 2 and not H.j.get("impl_trait") and \
+                    not (H.j.get("output") or "").startswith("core::option::Option<"):
+                return H
+        return None
+    for (b, k, w) in ret_writes(fn):
+        if k == "err":
+            t = v.cx.operand(w["ops"][0])
+            var = str(t[3]) if t[0] == "agg" else (str(t[2][0][3]) if (is_call(t, name="into") or is_call(t, name="from")) and t[2] and t[2][0][0] == "agg" else "?")
+            add("V:" + var, atoms_of(b))
+        elif k in ("residual", "call"):
+            t = v.cx.call(w, (fn.key, b))
+            src = source_call(t)
+            ce = carried_error(prog, t[1] if t[0] in ("residual", "try") else t) or carried_error(prog, src)
+            if isinstance(src, tuple) and src and src[0] == "ok_or":
+                e = src[2]
+                add("V:" + (str(e[3]) if e[0] == "agg" else "?"), atoms_of(b))
+            elif ce is not None:
+                add("V:" + (str(ce[3]) if ce[0] == "agg" else "?"), atoms_of(b))
+            else:
+                H = helper_of(src)
+                if H is not None:
+                    for kk, at in err_atoms(prog, H, table_keys, depth + 1).items():
+                        add(kk, {("in", H.key, a) for a in at})
+                elif isinstance(src, tuple) and src and src[0] == "call" and depth < 3:
+                    for x in subterms(src):
+                        if x[0] == "closure" and x[1] in prog.fns and prog.fns[x[1]].has_body:
+                            for kk, at in err_atoms(prog, prog.fns[x[1]], table_keys, depth + 1).items():
+                                add(kk, {("in", x[1], a) for a in at})
+    # failures of unlisted private helpers reached through `match helper(..) { Err(..) => .. }` arms are counted with the helper
+    return out
 
 
 def returns_result_fn(fn):
@@ -1687,9 +1850,14 @@ def refusal_inventory(ctx):
         if not f:
             continue
         got = err_inventory(P, f, TABLE.keys())
-        # explicit refusals: multiset (a second refusal with an existing variant is still an added refusal);
+        # explicit refusals: multiset (a second refusal with an existing variant is still an added refusal) — unless the number of
+        # distinct atomic refusal conditions has not grown (one check split in two, `a || b` refused in two places);
         # propagated failures: set
-        added = {k: n - exp.get(k, 0) for k, n in got.items() if (k.startswith("V:") and n > exp.get(k, 0)) or (k.startswith("?:") and k not in exp)}
+        from .rules.refusal_table import ATOMS
+        exp_atoms = ATOMS.get(key, {})
+        got_atoms = {k: len(a) for k, a in err_atoms(P, f, TABLE.keys()).items()}
+        added = {k: n - exp.get(k, 0) for k, n in got.items()
+                 if (k.startswith("V:") and n > exp.get(k, 0) and got_atoms.get(k, n) > exp_atoms.get(k, 0)) or (k.startswith("?:") and k not in exp)}
         ctx.check(not added, "REFUSALS", key, "no-added-refusal",
                   "%s has gained refusal site(s) %s beyond the reviewed set %s: inputs the property requires to succeed "
                   "may now be rejected" % (short(key), added, exp), f.loc, {"found": got})
